@@ -13,7 +13,7 @@
 //          r,<i>,<off>         the guest loads the byte at ptr_i+off     address lies inside the
 //                              requested size of a live allocation; otherwise "skip")
 //          g,<n>               the guest grows the memory by n pages
-//          S,<n>               the embedder swaps in a memory of n pages (may shrink)
+//          S,<n>               the embedder swaps in a memory of min(n, maxPages) pages (may shrink)
 // observed: one token per op: <res>,<pagesAfter>
 //   res := p<ptr> | e:<class> | ok | v<byte> | skip
 //   class := poisoned shrunk toolarge hdrptr readhdr order occfree oos grow writehdr invalidptr
@@ -239,6 +239,9 @@ func c28Run(in string) string {
 			}
 		case "S":
 			mem.pages = uint32(vu.UnX(a[1]))
+			if mem.pages > mem.max {
+				mem.pages = mem.max
+			}
 			res = "ok"
 		default:
 			return "err:badop"
